@@ -16,6 +16,7 @@ package types
 //@   ensures[C02] within(result, b)
 //@   ensures[C13] len(b) > 0 && vs > 0 ==> result == b[len(b)-vs:]
 //@   ensures[C13] len(b) == 0 || vs < 0 ==> len(result) == 0
+//@   noalloc[C17] noerr && calleesok
 
 //@ func OpenValueErr
 //@   safety[C02]
@@ -23,6 +24,7 @@ package types
 //@   ensures[C02] within(result0, b)
 //@   ensures[C13] len(b) > 0 && vs > 0 ==> result0 == b[len(b)-vs:] && result1 == nil
 //@   ensures[C13] len(b) > 0 && vs < 0 ==> len(result0) == 0 && result1 != nil
+//@   noalloc[C17]
 
 //@ func ParseValue
 //@   safety[C02]
@@ -30,6 +32,7 @@ package types
 //@   ensures[C02] 0 <= n && n <= len(b) && within(result0, b)
 //@   ensures[C13] err == nil ==> len(b) > 0 && n == vs && result0 == b[len(b)-vs:]
 //@   ensures[C13] err != nil ==> len(result0) == 0
+//@   noalloc[C17]
 
 // ---- lists
 
@@ -41,14 +44,17 @@ package types
 //@   ensures[C02] err != nil ==> len(l.bytes) == 0 && size == 0 && len(l.table.table) == 0
 //@   ensures[C13] err == nil && len(b) > 0 ==> size == vs && l.bytes == b[len(b)-vs:]
 //@   ensures[C13] err == nil && len(b) == 0 ==> size == 0
+//@   noalloc[C17]
 
 //@ func OpenList
 //@   safety[C02]
 //@   ensures[C02] within(result.bytes, b) && result.table.data <= len(result.bytes) && within(result.table.table, result.bytes)
+//@   noalloc[C17] noerr && calleesok
 
 //@ func OpenListErr
 //@   safety[C02]
 //@   ensures[C02] within(result0.bytes, b) && result0.table.data <= len(result0.bytes) && within(result0.table.table, result0.bytes)
+//@   noalloc[C17]
 
 //@ func ParseList
 //@   safety[C02]
@@ -57,25 +63,31 @@ package types
 //@   ensures[C02] within(l.bytes, b) && l.table.data <= len(l.bytes) && within(l.table.table, l.bytes)
 //@   ensures[C13] err == nil && len(b) > 0 ==> size == vs && l.bytes == b[len(b)-vs:]
 //@   loop 1 invariant 0 <= i && ln == ite(l.table.big, len(l.table.table) / 4, len(l.table.table) / 2)
+//@   loop 1 invariant[C17] nalloc == 0 && nfail == 0
 //@   loop 1 invariant within(l.bytes, b) && l.table.data <= len(l.bytes) && within(l.table.table, l.bytes) && 0 <= size && size <= len(b)
 //@   loop 1 invariant[C13] len(b) > 0 ==> size == vs && l.bytes == b[len(b)-vs:]
+//@   noalloc[C17]
 
 //@ func (List).Len
 //@   safety[C02]
 //@   ensures result == ite(l.table.big, len(l.table.table) / 4, len(l.table.table) / 2)
+//@   noalloc[C17]
 
 //@ func (List).Empty
 //@   safety[C02]
+//@   noalloc[C17]
 
 //@ func (List).Raw
 //@   safety[C02]
 //@   ensures result == l.bytes
+//@   noalloc[C17]
 
 //@ func (List).Get
 //@   safety[C02]
 //@   requires l.table.data <= len(l.bytes)
 //@   requires 0 <= i && i < ite(l.table.big, len(l.table.table) / 4, len(l.table.table) / 2)
 //@   ensures[C02] within(result, l.bytes)
+//@   noalloc[C17]
 
 //@ func (List).GetBytes
 //@   safety[C02]
@@ -88,16 +100,19 @@ package types
 //@   ensures[C02] within(result, l.bytes)
 //@   ensures[C01,C16] start <= end && end <= l.table.data ==> result == l.bytes[start:end]
 //@   ensures[C01,C16] start > end || end > l.table.data ==> len(result) == 0
+//@   noalloc[C17]
 
 // ---- messages
 
 //@ func OpenMessage
 //@   safety[C02]
 //@   ensures[C02] within(result.bytes, b) && result.table.data <= len(result.bytes) && within(result.table.table, result.bytes)
+//@   noalloc[C17] noerr && calleesok
 
 //@ func OpenMessageErr
 //@   safety[C02]
 //@   ensures[C02] within(result0.bytes, b) && result0.table.data <= len(result0.bytes) && within(result0.table.table, result0.bytes)
+//@   noalloc[C17]
 
 //@ func ParseMessage
 //@   safety[C02]
@@ -106,23 +121,29 @@ package types
 //@   ensures[C02] within(result0.bytes, b) && result0.table.data <= len(result0.bytes) && within(result0.table.table, result0.bytes)
 //@   ensures[C13] err == nil && len(b) > 0 ==> size == vs && result0.bytes == b[len(b)-vs:]
 //@   loop 1 invariant 0 <= i && 0 <= size && size <= len(b)
+//@   loop 1 invariant[C17] nalloc == 0 && nfail == 0
 //@   loop 1 invariant within(m.bytes, b) && m.table.data <= len(m.bytes) && within(m.table.table, m.bytes)
 //@   loop 1 invariant[C13] len(b) > 0 ==> size == vs && m.bytes == b[len(b)-vs:]
+//@   noalloc[C17]
 
 //@ func (Message).Empty
 //@   safety[C02]
+//@   noalloc[C17]
 
 //@ func (Message).Len
 //@   safety[C02]
 //@   ensures result == len(m.bytes)
+//@   noalloc[C17]
 
 //@ func (Message).Raw
 //@   safety[C02]
 //@   ensures result == m.bytes
+//@   noalloc[C17]
 
 //@ func (Message).Fields
 //@   safety[C02]
 //@   ensures result == ite(m.table.big, len(m.table.table) / 6, len(m.table.table) / 3)
+//@   noalloc[C17]
 
 //@ func (Message).field
 //@   safety[C02]
@@ -132,290 +153,366 @@ package types
 //@   ensures[C02] within(result, m.bytes)
 //@   ensures[C01,C16] !m.table.big && result != nil ==> exists k :: 0 <= k && k < len(m.table.table) / 3 && smallTag(T, s, k) == tag && result == m.bytes[:smallOff(T, s, k)]
 //@   ensures[C01,C16] m.table.big && result != nil ==> exists k :: 0 <= k && k < len(m.table.table) / 6 && bigTag(T, s, k) == tag && result == m.bytes[:bigOff(T, s, k)]
+//@   noalloc[C17]
 
 //@ func (Message).fieldAt
 //@   safety[C02]
 //@   requires m.table.data <= len(m.bytes)
 //@   ensures[C02] within(result, m.bytes)
+//@   noalloc[C17]
 
 //@ func (Message).HasField
 //@   safety[C02]
+//@   noalloc[C17]
 
 // ---- thin accessors (generated by /verif/tools/gen_types_contracts.py)
 
 //@ func (Value).Type
 //@   safety[C02]
+//@   noalloc[C17]
 
 //@ func (Value).Bool
 //@   safety[C02]
+//@   noalloc[C17] noerr && calleesok
 
 //@ func (Value).BoolErr
 //@   safety[C02]
+//@   noalloc[C17]
 
 //@ func (Value).Byte
 //@   safety[C02]
+//@   noalloc[C17] noerr && calleesok
 
 //@ func (Value).ByteErr
 //@   safety[C02]
+//@   noalloc[C17]
 
 //@ func (Value).Int16
 //@   safety[C02]
+//@   noalloc[C17] noerr && calleesok
 
 //@ func (Value).Int16Err
 //@   safety[C02]
+//@   noalloc[C17]
 
 //@ func (Value).Int32
 //@   safety[C02]
+//@   noalloc[C17] noerr && calleesok
 
 //@ func (Value).Int32Err
 //@   safety[C02]
+//@   noalloc[C17]
 
 //@ func (Value).Int64
 //@   safety[C02]
+//@   noalloc[C17] noerr && calleesok
 
 //@ func (Value).Int64Err
 //@   safety[C02]
+//@   noalloc[C17]
 
 //@ func (Value).Uint16
 //@   safety[C02]
+//@   noalloc[C17] noerr && calleesok
 
 //@ func (Value).Uint16Err
 //@   safety[C02]
+//@   noalloc[C17]
 
 //@ func (Value).Uint32
 //@   safety[C02]
+//@   noalloc[C17] noerr && calleesok
 
 //@ func (Value).Uint32Err
 //@   safety[C02]
+//@   noalloc[C17]
 
 //@ func (Value).Uint64
 //@   safety[C02]
+//@   noalloc[C17] noerr && calleesok
 
 //@ func (Value).Uint64Err
 //@   safety[C02]
+//@   noalloc[C17]
 
 //@ func (Value).Float32
 //@   safety[C02]
+//@   noalloc[C17] noerr && calleesok
 
 //@ func (Value).Float32Err
 //@   safety[C02]
+//@   noalloc[C17]
 
 //@ func (Value).Float64
 //@   safety[C02]
+//@   noalloc[C17] noerr && calleesok
 
 //@ func (Value).Float64Err
 //@   safety[C02]
+//@   noalloc[C17]
 
 //@ func (Value).Bin64
 //@   safety[C02]
+//@   noalloc[C17] noerr && calleesok
 
 //@ func (Value).Bin64Err
 //@   safety[C02]
+//@   noalloc[C17]
 
 //@ func (Value).Bin128
 //@   safety[C02]
+//@   noalloc[C17] noerr && calleesok
 
 //@ func (Value).Bin128Err
 //@   safety[C02]
+//@   noalloc[C17]
 
 //@ func (Value).Bin256
 //@   safety[C02]
+//@   noalloc[C17] noerr && calleesok
 
 //@ func (Value).Bin256Err
 //@   safety[C02]
+//@   noalloc[C17]
 
 //@ func (Value).Bytes
 //@   safety[C02]
 //@   ensures[C02] within(result, v)
+//@   noalloc[C17] noerr && calleesok
 
 //@ func (Value).BytesErr
 //@   safety[C02]
 //@   ensures[C02] within(result0, v)
+//@   noalloc[C17]
 
 //@ func (Value).String
 //@   safety[C02]
 //@   ensures[C02] within(result, v)
+//@   noalloc[C17] noerr && calleesok
 
 //@ func (Value).StringErr
 //@   safety[C02]
 //@   ensures[C02] within(result0, v)
+//@   noalloc[C17]
 
 //@ func (Value).List
 //@   safety[C02]
 //@   ensures[C02] within(result.bytes, v) && result.table.data <= len(result.bytes) && within(result.table.table, result.bytes)
+//@   noalloc[C17] noerr && calleesok
 
 //@ func (Value).ListErr
 //@   safety[C02]
 //@   ensures[C02] within(result0.bytes, v) && result0.table.data <= len(result0.bytes) && within(result0.table.table, result0.bytes)
+//@   noalloc[C17]
 
 //@ func (Value).Message
 //@   safety[C02]
 //@   ensures[C02] within(result.bytes, v) && result.table.data <= len(result.bytes) && within(result.table.table, result.bytes)
+//@   noalloc[C17] noerr && calleesok
 
 //@ func (Value).MessageErr
 //@   safety[C02]
 //@   ensures[C02] within(result0.bytes, v) && result0.table.data <= len(result0.bytes) && within(result0.table.table, result0.bytes)
+//@   noalloc[C17]
 
 //@ func (Message).Field
 //@   safety[C02]
 //@   requires m.table.data <= len(m.bytes)
 //@   ensures[C02] within(result, m.bytes)
+//@   noalloc[C17] noerr && calleesok
 
 //@ func (Message).FieldAt
 //@   safety[C02]
 //@   requires m.table.data <= len(m.bytes)
 //@   ensures[C02] within(result, m.bytes)
+//@   noalloc[C17] noerr && calleesok
 
 //@ func (Message).FieldRaw
 //@   safety[C02]
 //@   requires m.table.data <= len(m.bytes)
 //@   ensures[C02] within(result, m.bytes)
+//@   noalloc[C17]
 
 //@ func (Message).TagAt
 //@   safety[C02]
 //@   requires m.table.data <= len(m.bytes)
+//@   noalloc[C17]
 
 //@ func (Message).Bool
 //@   safety[C02]
 //@   requires m.table.data <= len(m.bytes)
+//@   noalloc[C17] noerr && calleesok
 
 //@ func (Message).Byte
 //@   safety[C02]
 //@   requires m.table.data <= len(m.bytes)
+//@   noalloc[C17] noerr && calleesok
 
 //@ func (Message).BoolErr
 //@   safety[C02]
 //@   requires m.table.data <= len(m.bytes)
+//@   noalloc[C17]
 
 //@ func (Message).ByteErr
 //@   safety[C02]
 //@   requires m.table.data <= len(m.bytes)
+//@   noalloc[C17]
 
 //@ func (Message).Int16
 //@   safety[C02]
 //@   requires m.table.data <= len(m.bytes)
+//@   noalloc[C17] noerr && calleesok
 
 //@ func (Message).Int32
 //@   safety[C02]
 //@   requires m.table.data <= len(m.bytes)
+//@   noalloc[C17] noerr && calleesok
 
 //@ func (Message).Int64
 //@   safety[C02]
 //@   requires m.table.data <= len(m.bytes)
+//@   noalloc[C17] noerr && calleesok
 
 //@ func (Message).Int16Err
 //@   safety[C02]
 //@   requires m.table.data <= len(m.bytes)
+//@   noalloc[C17]
 
 //@ func (Message).Int32Err
 //@   safety[C02]
 //@   requires m.table.data <= len(m.bytes)
+//@   noalloc[C17]
 
 //@ func (Message).Int64Err
 //@   safety[C02]
 //@   requires m.table.data <= len(m.bytes)
+//@   noalloc[C17]
 
 //@ func (Message).Uint16
 //@   safety[C02]
 //@   requires m.table.data <= len(m.bytes)
+//@   noalloc[C17] noerr && calleesok
 
 //@ func (Message).Uint32
 //@   safety[C02]
 //@   requires m.table.data <= len(m.bytes)
+//@   noalloc[C17] noerr && calleesok
 
 //@ func (Message).Uint64
 //@   safety[C02]
 //@   requires m.table.data <= len(m.bytes)
+//@   noalloc[C17] noerr && calleesok
 
 //@ func (Message).Uint16Err
 //@   safety[C02]
 //@   requires m.table.data <= len(m.bytes)
+//@   noalloc[C17]
 
 //@ func (Message).Uint32Err
 //@   safety[C02]
 //@   requires m.table.data <= len(m.bytes)
+//@   noalloc[C17]
 
 //@ func (Message).Uint64Err
 //@   safety[C02]
 //@   requires m.table.data <= len(m.bytes)
+//@   noalloc[C17]
 
 //@ func (Message).Float32
 //@   safety[C02]
 //@   requires m.table.data <= len(m.bytes)
+//@   noalloc[C17] noerr && calleesok
 
 //@ func (Message).Float64
 //@   safety[C02]
 //@   requires m.table.data <= len(m.bytes)
+//@   noalloc[C17] noerr && calleesok
 
 //@ func (Message).Float32Err
 //@   safety[C02]
 //@   requires m.table.data <= len(m.bytes)
+//@   noalloc[C17]
 
 //@ func (Message).Float64Err
 //@   safety[C02]
 //@   requires m.table.data <= len(m.bytes)
+//@   noalloc[C17]
 
 //@ func (Message).Bin64
 //@   safety[C02]
 //@   requires m.table.data <= len(m.bytes)
+//@   noalloc[C17] noerr && calleesok
 
 //@ func (Message).Bin128
 //@   safety[C02]
 //@   requires m.table.data <= len(m.bytes)
+//@   noalloc[C17] noerr && calleesok
 
 //@ func (Message).Bin256
 //@   safety[C02]
 //@   requires m.table.data <= len(m.bytes)
+//@   noalloc[C17] noerr && calleesok
 
 //@ func (Message).Bin64Err
 //@   safety[C02]
 //@   requires m.table.data <= len(m.bytes)
+//@   noalloc[C17]
 
 //@ func (Message).Bin128Err
 //@   safety[C02]
 //@   requires m.table.data <= len(m.bytes)
+//@   noalloc[C17]
 
 //@ func (Message).Bin256Err
 //@   safety[C02]
 //@   requires m.table.data <= len(m.bytes)
+//@   noalloc[C17]
 
 //@ func (Message).Bytes
 //@   safety[C02]
 //@   requires m.table.data <= len(m.bytes)
 //@   ensures[C02] within(result, m.bytes)
+//@   noalloc[C17] noerr && calleesok
 
 //@ func (Message).String
 //@   safety[C02]
 //@   requires m.table.data <= len(m.bytes)
 //@   ensures[C02] within(result, m.bytes)
+//@   noalloc[C17] noerr && calleesok
 
 //@ func (Message).BytesErr
 //@   safety[C02]
 //@   requires m.table.data <= len(m.bytes)
 //@   ensures[C02] within(result0, m.bytes)
+//@   noalloc[C17]
 
 //@ func (Message).StringErr
 //@   safety[C02]
 //@   requires m.table.data <= len(m.bytes)
 //@   ensures[C02] within(result0, m.bytes)
+//@   noalloc[C17]
 
 //@ func (Message).List
 //@   safety[C02]
 //@   requires m.table.data <= len(m.bytes)
 //@   ensures[C02] within(result.bytes, m.bytes) && result.table.data <= len(result.bytes) && within(result.table.table, result.bytes)
+//@   noalloc[C17] noerr && calleesok
 
 //@ func (Message).Message
 //@   safety[C02]
 //@   requires m.table.data <= len(m.bytes)
 //@   ensures[C02] within(result.bytes, m.bytes) && result.table.data <= len(result.bytes) && within(result.table.table, result.bytes)
+//@   noalloc[C17] noerr && calleesok
 
 //@ func (Message).ListErr
 //@   safety[C02]
 //@   requires m.table.data <= len(m.bytes)
 //@   ensures[C02] within(result0.bytes, m.bytes) && result0.table.data <= len(result0.bytes) && within(result0.table.table, result0.bytes)
+//@   noalloc[C17]
 
 //@ func (Message).MessageErr
 //@   safety[C02]
 //@   requires m.table.data <= len(m.bytes)
 //@   ensures[C02] within(result0.bytes, m.bytes) && result0.table.data <= len(result0.bytes) && within(result0.table.table, result0.bytes)
+//@   noalloc[C17]
 
